@@ -304,7 +304,7 @@ def render_feature(feature, noise=None, language_header=False):
                 tlines = []
                 for row in tbl:
                     tl = out.emit(u"| " + u" | ".join(escape_cell(c) for c in row) + u" |",
-                                  indent + 2, allow_pre=False)
+                                  indent + 2, allow_pre=True)
                     tlines.append(tl)
                 fact["table"] = {"headings": list(tbl[0]), "rows": [list(r) for r in tbl[1:]],
                                  "lines": tlines}
@@ -346,11 +346,11 @@ def render_feature(feature, noise=None, language_header=False):
                 ekw = kw("examples")
                 el = out.emit(u"%s: %s" % (ekw, ex.get("name", u"")), indent + 2)
                 hl = out.emit(u"| " + u" | ".join(escape_cell(c) for c in ex["cols"]) + u" |",
-                              indent + 4, allow_pre=False)
+                              indent + 4, allow_pre=True)
                 rlines = []
                 for row in ex["rows"]:
                     rl = out.emit(u"| " + u" | ".join(escape_cell(c) for c in row) + u" |",
-                                  indent + 4, allow_pre=False)
+                                  indent + 4, allow_pre=True)
                     rlines.append(rl)
                 fact["examples"].append({"kind": "examples", "line": el, "keyword": ekw,
                                          "name": ex.get("name", u""), "tags": etags,
